@@ -11,5 +11,5 @@ CONSTANTS
   OpenLimit = 2000
   EmitMod = 1
   EmitRem = 0
-CONSTRAINT Verdict
+CONSTRAINT TVerdict
 CHECK_DEADLOCK FALSE
